@@ -40,11 +40,18 @@ type Case struct {
 	Updates   []Upd
 	T, T1, T2 int64 // query times (same unit); T1 <= T2
 	Order     int   // 0 index-sorted (as annotation emits), 1 time-sorted, 2 as drawn (shuffled)
+	QZone     int   // location of the query times: 0 UTC, 1 +01:00, 2 a zero-offset fixed zone, 3 -05:30 (same instants)
+	UZone     int   // location of the update timestamps
 }
 
 var base = time.Date(2015, 3, 1, 12, 0, 0, 0, time.UTC)
 
+var zones = []*time.Location{time.UTC, time.FixedZone("", 3600), time.FixedZone("", 0), time.FixedZone("", -(5*3600 + 1800))}
+
 func at(ts int64) time.Time { return base.Add(time.Duration(ts) * 500 * time.Millisecond) }
+
+// q is a query time: the same instant, possibly carried in another location
+func (c *Case) q(ts int64) time.Time { return at(ts).In(zones[c.QZone%len(zones)]) }
 
 func (c *Case) way() *osm.Way {
 	w := &osm.Way{ID: 7, Version: 3, Visible: true, Tags: osm.Tags{{Key: "highway", Value: "x"}}}
@@ -83,7 +90,7 @@ func (c *Case) ordered() []Upd {
 func (c *Case) updates() osm.Updates {
 	var out osm.Updates
 	for _, u := range c.ordered() {
-		out = append(out, osm.Update{Index: u.Index, Version: u.Version, Timestamp: at(u.TS), ChangesetID: osm.ChangesetID(u.CS), Lat: u.Lat, Lon: u.Lon, Reverse: u.Reverse})
+		out = append(out, osm.Update{Index: u.Index, Version: u.Version, Timestamp: at(u.TS).In(zones[c.UZone%len(zones)]), ChangesetID: osm.ChangesetID(u.CS), Lat: u.Lat, Lon: u.Lon, Reverse: u.Reverse})
 	}
 	return out
 }
@@ -161,7 +168,7 @@ type elem interface {
 func (c *Case) apply(t int64) (children []Child, pending osm.Updates, identityOK bool, err error) {
 	if c.IsWay {
 		w := c.way()
-		err = w.ApplyUpdatesUpTo(at(t))
+		err = w.ApplyUpdatesUpTo(c.q(t))
 		ok := w.ID == 7 && w.Version == 3 && w.Visible && len(w.Tags) == 1 && len(w.Nodes) == len(c.Children)
 		for i, n := range w.Nodes {
 			ok = ok && n.ID == osm.NodeID(100+i)
@@ -169,7 +176,7 @@ func (c *Case) apply(t int64) (children []Child, pending osm.Updates, identityOK
 		return childrenOfWay(w), w.Updates, ok, err
 	}
 	r := c.relation()
-	err = r.ApplyUpdatesUpTo(at(t))
+	err = r.ApplyUpdatesUpTo(c.q(t))
 	ok := r.ID == 9 && r.Version == 2 && r.Visible && len(r.Tags) == 1 && len(r.Members) == len(c.Children)
 	for i, m := range r.Members {
 		ok = ok && m.Ref == int64(200+i) && m.Type == osm.TypeWay && m.Role == "outer"
@@ -222,7 +229,7 @@ func check(c Case) error {
 			wantUpTo = append(wantUpTo, u)
 		}
 	}
-	if d := eqPending(c.updates().UpTo(at(c.T)), wantUpTo); d != "" {
+	if d := eqPending(c.updates().UpTo(c.q(c.T)), wantUpTo); d != "" {
 		return harness.Failf("C15/upto", "Updates.UpTo(t=%d): %s", c.T, d)
 	}
 	inRange := true
@@ -238,19 +245,19 @@ func check(c Case) error {
 		var pend osm.Updates
 		if c.IsWay {
 			w := c.way()
-			if err := w.ApplyUpdatesUpTo(at(c.T1)); err != nil {
+			if err := w.ApplyUpdatesUpTo(c.q(c.T1)); err != nil {
 				return harness.Failf("C15/unexpected-error", "%v", err)
 			}
-			if err := w.ApplyUpdatesUpTo(at(c.T2)); err != nil {
+			if err := w.ApplyUpdatesUpTo(c.q(c.T2)); err != nil {
 				return harness.Failf("C15/unexpected-error", "%v", err)
 			}
 			twice, pend = childrenOfWay(w), w.Updates
 		} else {
 			r := c.relation()
-			if err := r.ApplyUpdatesUpTo(at(c.T1)); err != nil {
+			if err := r.ApplyUpdatesUpTo(c.q(c.T1)); err != nil {
 				return harness.Failf("C15/unexpected-error", "%v", err)
 			}
-			if err := r.ApplyUpdatesUpTo(at(c.T2)); err != nil {
+			if err := r.ApplyUpdatesUpTo(c.q(c.T2)); err != nil {
 				return harness.Failf("C15/unexpected-error", "%v", err)
 			}
 			twice, pend = childrenOfRel(r), r.Updates
@@ -267,12 +274,12 @@ func check(c Case) error {
 	if c.IsWay && inRange && fullyAnnotated(c) {
 		w := c.way()
 		before := fmt.Sprint(w.Nodes, w.Updates)
-		got := w.LineStringAt(at(c.T))
+		got := w.LineStringAt(c.q(c.T))
 		if fmt.Sprint(w.Nodes, w.Updates) != before {
 			return harness.Failf("C15/linestringat-mutates", "LineStringAt modified the way")
 		}
 		cp := c.way()
-		if err := cp.ApplyUpdatesUpTo(at(c.T)); err != nil {
+		if err := cp.ApplyUpdatesUpTo(c.q(c.T)); err != nil {
 			return harness.Failf("C15/unexpected-error", "%v", err)
 		}
 		want := cp.LineString()
@@ -392,6 +399,8 @@ func TestUpdates(t *testing.T) {
 			}
 			c.T = pick("t")
 			c.T1 = pick("t1")
+			c.QZone = rapid.SampledFrom([]int{0, 0, 1, 2, 3}).Draw(t, "qzone")
+			c.UZone = rapid.SampledFrom([]int{0, 0, 0, 1, 2}).Draw(t, "uzone")
 			c.T2 = c.T1 + int64(rapid.IntRange(0, 20).Draw(t, "dt"))
 			return c
 		},
